@@ -1,6 +1,6 @@
 (* pins for C01: statements of the property theorems as of the time of pinning *)
 From Coq Require Import NArith List.
-From Blue Require Import Gen.Const_Lsm Lsm.Model Lsm.LoadProofs Lsm.Ordered Lsm.CompactProofs Lsm.GcProofs Lsm.WfProofs Lsm.History.
+From Blue Require Import Gen.Const_Lsm Lsm.Model Lsm.LoadProofs Lsm.Ordered Lsm.CompactProofs Lsm.GcProofs Lsm.WfProofs Lsm.History Lsm.RecoverImpossible.
 Import ListNotations.
 Open Scope N_scope.
 From Blue Require Import Lsm.Props_C01.
@@ -11,3 +11,4 @@ Check C01_compaction_preserves_reads : forall s c outs, Inv s -> acceptedb s (OC
 Check C01_gc_preserves_reads : forall s c outs k, wf_version (ver s) -> Ordered s -> valid_compactionb (ver s) c = true -> S (cupper c) = length (ver s) -> gc_outputs_okb (ver s) c outs = true -> hd_value (kview (compact s c outs) k) = hd_value (kview s k) /\ desc_ts (kview (compact s c outs) k) /\ (forall e, In e (kview (compact s c outs) k) -> In e (kview s k)).
 Check C01_compaction_keeps_levels_well_formed : forall s c outs, wf_version (ver s) -> Ordered s -> valid_compactionb (ver s) c = true -> (outputs_okb (ver s) c outs = true \/ gc_outputs_okb (ver s) c outs = true) -> wf_versionb (apply_compaction (ver s) c outs) = true.
 Check C01_invariant_reachable : forall n ops, all_accepted (init_at n) ops = true -> Inv (run (init_at n) ops).
+Check C01_recovery_from_metadata_refuted : (meta fA = meta fA' /\ meta fB = meta fB') /\ (wf_versionb vAB = true /\ orderedb (mkS [] vAB 9) = true /\ wf_versionb vBA' = true /\ orderedb (mkS [] vBA' 9) = true) /\ (forall v n n', only_AB (flat v) -> In fA (flat v) -> In fB (flat v) -> ~ (Ordered (mkS [] v n) /\ Ordered (mkS [] (swap_contents v) n'))).
